@@ -51,7 +51,7 @@ class DistUnit(corr.Unit):
         start = datetime.datetime.fromisoformat("2023-01-0%dT08:00:00+02:00" % rng.randint(2, 8))
         iv = rng.choice([15, 15, 10])
         n = rng.choice([8, 12])
-        comp = {"grid_connectors": {"GC1": {"max_power": rng.choice([50, 100]), "cost": {"type": "fixed", "value": 0.3}, "number_cs": (lambda v_: 0 if RNGX.random() < 0.2 else v_)(rng.choice([1, 1, 2])),
+        comp = {"grid_connectors": {"GC1": {"max_power": rng.choice([50, 100]), "cost": {"type": "fixed", "value": 0.3}, "number_cs": rng.choice([1, 1, 2]),
                                             "voltage_level": "MV", "grid_operator": "default_grid_operator"},
                                     "GC2": {"max_power": 100, "cost": {"type": "fixed", "value": 0.3}, "voltage_level": "MV", "grid_operator": "default_grid_operator"}},
                 "charging_stations": {}, "vehicle_types": {"vt": {"name": "vt", "capacity": rng.choice([50, 200]), "charging_curve": [[0, 50], [1, 50]]}},
@@ -93,6 +93,12 @@ class DistUnit(corr.Unit):
                 which = rng.choice(["strategy_options_opps", "strategy_options_deps"])
                 opts[which] = rng.choice([{"PRICE_THRESHOLD": 10}, {"PRICE_THRESHOLD": -1}, {"PRICE_THRESHOLD": 0.3}])
             out.append({"js": js, "options": opts})
+        # boundary: a connector that offers no charging point at all (number_cs = 0); drawn from the private stream so that the cases
+        # above stay what they were (round-3 seed C14-s8)
+        for _ in range(2):
+            c0 = self.directed(RNGX)
+            c0["js"]["components"]["grid_connectors"]["GC1"]["number_cs"] = 0
+            out.append(c0)
         return out
 
     def run_impl(self, case):
